@@ -363,6 +363,33 @@ func main() {
 	} {
 		add(task{Kind: "query", Query: q, Origin: "dom"})
 	}
+	// f2. member access on DOM values: known and unknown property names, indexes, chains
+	domSrc := []string{"d", `ELEMENT(d, "div")`, `ELEMENT(d, "p")`, `ELEMENTS(d, "li")[0]`, `ELEMENTS(d, "li")`, `d.body`, `d.head`, `ELEMENT(d, "div").attributes`, `ELEMENT(d, "div").style`, `ELEMENT(d, "p").parentElement`}
+	domProps := []string{"foo", "className", "innerText", "innerHTML", "nodeName", "nodeType", "children", "length", "value", "attributes", "style", "parentElement", "previousElementSibling", "nextElementSibling", "title", "url", "URL", "body", "head", "document", "cookies", "frames", "isDetached", "x y", "", "0", "class", "id", "color"}
+	ndom := 150 * scale
+	for i := 0; i < ndom; i++ {
+		e := domSrc[rng.Intn(len(domSrc))]
+		for j := 0; j < 1+rng.Intn(3); j++ {
+			switch rng.Intn(5) {
+			case 0:
+				e += fmt.Sprintf("[%d]", rng.Intn(4)-1)
+			case 1:
+				e += fmt.Sprintf("[%q]", domProps[rng.Intn(len(domProps))])
+			default:
+				pn := domProps[rng.Intn(len(domProps))]
+				if pn == "" || strings.ContainsAny(pn, " 0123456789") {
+					e += fmt.Sprintf("[%q]", pn)
+				} else {
+					e += "." + pn
+				}
+			}
+			if rng.Intn(6) == 0 {
+				e = "(" + e + ")?"
+				break
+			}
+		}
+		add(task{Kind: "query", Query: "LET d = PARSE(@html) RETURN " + e, Origin: "dom-member"})
+	}
 	// g. parameter values of every Go kind
 	for i := range exoticParams() {
 		add(task{Kind: "param", Query: "RETURN @p", Param: i, Origin: "go-param"})
